@@ -28,11 +28,13 @@ def cursorAt (log : List Block) (n : Nat) : Bytes := lastIdOf [] (eventsOf (log.
 /-- one HTTP attempt against the faithful server: a transport error, or a response with a status
 whose body is the first `cut` bytes of what the server would send, ended by `t` -/
 inductive FAttempt where
-  | terr
+  | terr (e : TErr)
+  | ctxEnded (sent : Bool)
   | resp (code cut : Nat) (t : Term)
 
 def toAttempt (log : List Block) : FAttempt → Attempt
-  | .terr => .terr
+  | .terr e => .terr e
+  | .ctxEnded sent => .ctxEnded sent
   | .resp code cut t => .resp code (fun hdr => scanBytes ((serialize (serve log hdr)).take cut) t)
 
 /-! ### lemmas about the faithful server -/
@@ -234,11 +236,19 @@ theorem step_inv {M} (cfg : Cfg M) (hd : cfg.dropUnterminated = true) (hH : cfg.
       · exact hh h hm
       · exact ⟨n, hn, by simpa [hl] using hm⟩
     cases fa with
-    | terr =>
+    | terr e =>
       simp only [toAttempt]
       split
       · exact ⟨n, hn, hmsgs, hh', trivial⟩
-      · exact ⟨n, hn, hmsgs, hh', hs, hl, hp⟩
+      · split
+        · exact ⟨n, hn, hmsgs, hh', trivial⟩
+        · exact ⟨n, hn, hmsgs, hh', hs, hl, hp⟩
+    | ctxEnded sent =>
+      simp only [toAttempt]
+      refine ⟨n, hn, hmsgs, ?_, trivial⟩
+      cases sent
+      · exact hh
+      · exact hh'
     | resp code cut t =>
       simp only [toAttempt]
       cases hc : checkResponse code with
@@ -270,6 +280,15 @@ theorem runF_inv {M} (cfg : Cfg M) (hd : cfg.dropUnterminated = true) (hH : cfg.
 
 /-! ### retry accounting (any server, any attempts) -/
 
+/-- **The retry loop never stops on a property of the attempt's error.**  Read off the code on every
+run (`Generated.ClientStream.stopOn…`: the tests of the error under which the branch taken when
+`client.Do` fails leaves the loop): whatever the error answers to `errors.Is(context.Canceled)`,
+`errors.Is(context.DeadlineExceeded)` or `Timeout()`, the branch stores it and goes on. -/
+theorem errStops_never (e : TErr) : errStops e = false := by
+  cases e; rfl
+
+
+
 /-- while reconnecting, both counters are within the budget -/
 def WFPhase {M} (cfg : Cfg M) : Phase → Prop
   | .reconnecting _ retries _ _ attempt => retries ≤ cfg.maxRetries ∧ 1 ≤ attempt ∧ attempt ≤ cfg.maxRetries
@@ -300,11 +319,14 @@ theorem step_wf {M} (cfg : Cfg M) (r : Run M) (a : Attempt) (h : WFPhase cfg r.p
   | reconnecting prev retries lastID hint attempt =>
     rw [hp] at h
     cases a with
-    | terr =>
+    | terr e =>
       simp only
       split
       · trivial
-      · simp only [WFPhase] at h ⊢; omega
+      · split
+        · trivial
+        · simp only [WFPhase] at h ⊢; omega
+    | ctxEnded sent => trivial
     | resp code body =>
       simp only
       split
@@ -351,13 +373,16 @@ def allFruitless {M} (cfg : Cfg M) : Run M → List Attempt → Bool
 /-- number of responses (bodies) in a script -/
 def bodies : List Attempt → Nat
   | [] => 0
-  | .terr :: as => bodies as
+  | .terr _ :: as => bodies as
+  | .ctxEnded _ :: as => bodies as
   | .resp .. :: as => bodies as + 1
 
-/-- the pending call has been failed: synthetic error response, or the connection was failed -/
+/-- the pending call has been failed: synthetic error response, the connection was failed, or the
+caller's own context ended (the call returns the context's error) -/
 def Ended.isFailure : Ended → Bool
   | .synthetic => true
   | .failed _ => true
+  | .cancelled => true
   | _ => false
 
 theorem afterBody_fruitless {M} (cfg : Cfg M) (prev : Bytes) (retries : Nat) (b : BodyOut M)
@@ -405,11 +430,14 @@ theorem fruitless_bound {M} (cfg : Cfg M) (script : List Attempt) :
       unfold step
       rw [hp] at hfa ⊢
       cases a with
-      | terr =>
+      | terr e =>
         simp only
         split
         · left; exact ⟨_, rfl, rfl⟩
-        · right; exact ⟨lastID, hint, attempt + 1, by simp [bodies]⟩
+        · split
+          · left; exact ⟨_, rfl, rfl⟩
+          · right; exact ⟨lastID, hint, attempt + 1, by simp [bodies]⟩
+      | ctxEnded sent => left; exact ⟨_, rfl, rfl⟩
       | resp code body =>
         simp only [fruitless] at hfa
         simp only
